@@ -2,6 +2,7 @@ package c11
 
 import (
 	"fmt"
+	"math"
 	"sort"
 	"strings"
 )
@@ -473,9 +474,9 @@ func numAccessors(f float64) []string {
 	switch {
 	case f != f:
 		add("S", shS("NaN"))
-	case f > 1.7e308:
+	case math.IsInf(f, 1):
 		add("S", shS("Infinity"))
-	case f < -1.7e308:
+	case math.IsInf(f, -1):
 		add("S", shS("-Infinity"))
 	case isInt:
 		add("S", shS(fmt.Sprint(int64(f)))) // -0 prints as "0" in JavaScript, int64(-0) is 0 too
